@@ -147,6 +147,24 @@ type Desc struct {
 	Schema []string `json:"schema"`
 	Ins    [][]Resp `json:"ins"`
 	Ops    []int    `json:"ops"` // demand of each Read call
+	// W != 0: the destination of call i is a window backing.Slice(pre, pre+d) of a
+	// larger sentinel-filled frame; (pre, post) derive from W and i (see window).
+	W uint64 `json:"w,omitempty"`
+}
+
+// window gives the rows before and behind the destination window of call ci.
+// About half of the calls get a plain frame (Len == Cap, offset 0).
+func (d Desc) window(ci int) (pre, post int) {
+	if d.W == 0 {
+		return 0, 0
+	}
+	rr := vf.NewRand(d.W + uint64(ci)*7919)
+	if rr.Bool() {
+		return 0, 0
+	}
+	pre = []int{0, 0, 1, 2, 3}[rr.Intn(5)]
+	post = []int{0, 1, 2, 3, 5, 8, 13, 130}[rr.Intn(8)]
+	return pre, post
 }
 
 func (d Desc) p(i int) int64 {
@@ -647,7 +665,7 @@ func build(d Desc) (b built, err error) {
 			b.out = append(b.out, groupOut())
 		}
 		b.kind = "KCogroup"
-	case "decoding":
+	case "decoding", "head-decoding":
 		var buf bytes.Buffer
 		enc := sliceio.NewEncodingWriter(&buf)
 		corrupt := false
@@ -667,6 +685,12 @@ func build(d Desc) (b built, err error) {
 		}
 		b.r = sliceio.NewDecodingReader(&buf)
 		b.out, b.kind = plainOut(sch), "KDecoding"
+		if kind == "head-decoding" {
+			// Head(n) directly over the decoded stream: headReader hands the
+			// window out.Slice(0, h.n) to the decoder
+			b.r = bigslice.Head(parent(sch), int(d.p(0))).Reader(0, []sliceio.Reader{b.r})
+			b.kind = vf.App("KHeadDecoding", vf.Z(d.p(0)))
+		}
 	case "closing":
 		b.r = sliceio.NewClosingReader(ups[0])
 		b.out, b.kind = plainOut(sch), "KClosing"
@@ -736,11 +760,13 @@ func (l *limited) Read(ctx context.Context, f frame.Frame) (int, error) {
 // ---------------------------------------------------------------- driving
 
 type callObs struct {
-	d, n  int
-	st    string
-	f     frame.Frame
-	dest  [][]int64
-	later [][]int64
+	d, n    int
+	st      string
+	backing frame.Frame // the frame the destination is a window of
+	off     int         // offset of the window in backing
+	pre     [][]int64   // rows of backing before the window, after the call
+	dest    [][]int64   // the window and the rows of backing behind it, after the call
+	later   [][]int64
 }
 
 func dump(out []outCol, f frame.Frame, lo, hi int) [][]int64 {
@@ -782,18 +808,21 @@ func guarded(f func() (int, error)) (res readResult, hung bool) {
 	}
 }
 
-func newDest(out []outCol, d int) frame.Frame {
+// newDest makes a sentinel-filled backing frame of pre+d+post rows and the
+// destination window backing.Slice(pre, pre+d): Len d, Cap d+post.
+func newDest(out []outCol, d, pre, post int) (backing, window frame.Frame) {
 	types := make([]reflect.Type, len(out))
 	for i, o := range out {
 		types[i] = o.typ
 	}
-	f := frame.Make(slicetype.New(types...), d, d)
+	n := pre + d + post
+	backing = frame.Make(slicetype.New(types...), n, n)
 	for c, o := range out {
-		for i := 0; i < d; i++ {
-			f.Index(c, i).Set(o.sent())
+		for i := 0; i < n; i++ {
+			backing.Index(c, i).Set(o.sent())
 		}
 	}
-	return f
+	return backing, backing.Slice(pre, pre+d)
 }
 
 // scanv reads up to d rows through Scanner.Scan into the destination frame.
@@ -849,11 +878,13 @@ func runCase(d Desc) (vf.Case, error) {
 		if dm < 1 {
 			continue // the property is about destinations of length >= 1
 		}
-		var f frame.Frame
+		var f, backing frame.Frame
+		pre, post := 0, 0
 		if b.noout {
 			f = frame.Empty
 		} else {
-			f = newDest(b.out, dm)
+			pre, post = d.window(ci)
+			backing, f = newDest(b.out, dm, pre, post)
 		}
 		res, hung := guarded(func() (int, error) {
 			switch {
@@ -872,7 +903,7 @@ func runCase(d Desc) (vf.Case, error) {
 				return b.r.Read(ctx, f)
 			}
 		})
-		c := callObs{d: dm, f: f}
+		c := callObs{d: dm, backing: backing, off: pre}
 		switch {
 		case hung:
 			c.st = "(SErr 10)"
@@ -882,7 +913,8 @@ func runCase(d Desc) (vf.Case, error) {
 			c.n, c.st = res.n, classify(res.err)
 		}
 		if !b.noout {
-			c.dest = dump(b.out, f, 0, dm)
+			c.pre = dump(b.out, backing, 0, pre)
+			c.dest = dump(b.out, backing, pre, pre+dm+post)
 		}
 		calls = append(calls, c)
 		if hung || res.pan || (stopEarly && c.st != "SOk") {
@@ -900,7 +932,14 @@ func runCase(d Desc) (vf.Case, error) {
 			n = 0
 		}
 		if !b.noout {
-			c.later = dump(b.out, c.f, 0, n)
+			c.later = dump(b.out, c.backing, c.off, c.off+n)
+			for _, r := range c.pre {
+				for _, z := range r {
+					if z != sentinel && z != -1 {
+						tailTouched = true
+					}
+				}
+			}
 			if c.st == "SOk" || c.st == "SEof" {
 				for _, r := range c.dest[n:] {
 					for _, z := range r {
@@ -977,7 +1016,7 @@ func runCase(d Desc) (vf.Case, error) {
 		if k > len(c.dest) {
 			k = len(c.dest)
 		}
-		cs[i] = vf.App("mkCall", vf.Nat(c.d), vf.Nat(n), c.st, rowsTerm(c.dest[:k]), rleTerm(c.dest[k:]), changedTerm(c.dest[:k], c.later))
+		cs[i] = vf.App("mkCall", vf.Nat(c.d), vf.Nat(n), c.st, rleTerm(c.pre), rowsTerm(c.dest[:k]), rleTerm(c.dest[k:]), changedTerm(c.dest[:k], c.later))
 		final = c.st
 		total += n
 	}
@@ -1144,7 +1183,7 @@ var schemas = [][]string{{"int"}, {"string"}, {"int", "string"}, {"int", "ints"}
 var keyedSchemas = [][]string{{"int", "int"}, {"string", "int"}}
 
 var kinds = []string{"map", "filter", "flatmap", "head", "const", "multi-sliceio", "frame", "fold",
-	"readerfunc", "writerfunc", "scan", "taskbuf", "multi-exec", "cogroup", "decoding", "closing",
+	"readerfunc", "writerfunc", "scan", "taskbuf", "multi-exec", "cogroup", "decoding", "head-decoding", "closing",
 	"scanner", "scanbad", "merge", "reduce", "bufout:flatmap", "bufout:map", "bufout:filter", "bufout:fold"}
 
 // genCase makes one case of the given kind. size: 0 small, 1 medium, 2 big (crosses the 128-row buffers).
@@ -1204,6 +1243,12 @@ func genCase(r *vf.Rand, kind string, size int) Desc {
 		o.valMax = 8
 	case "decoding":
 		o.eofRows = false
+	case "head-decoding":
+		o.eofRows = false
+		d.P = []int64{int64(r.Range(0, nrows+2))}
+		if maxChunk < 9 {
+			o.maxChunk = 9 // batches longer than most destinations
+		}
 	case "scanbad":
 		d.P = []int64{0, int64(r.Intn(2))}
 	case "merge":
@@ -1230,7 +1275,7 @@ func genCase(r *vf.Rand, kind string, size int) Desc {
 		}
 		d.Ins = append(d.Ins, genScript(r, oi))
 	}
-	if base == "decoding" { // an unreadable stream has one error class
+	if base == "decoding" || base == "head-decoding" { // an unreadable stream has one error class
 		for i := range d.Ins[0] {
 			if d.Ins[0][i].K == "fail" {
 				d.Ins[0][i].E = 1
@@ -1318,7 +1363,7 @@ func constDemands(dm, n int) []int {
 // genTail: variant v in 0..3; demands are all 1 (v even) or all 2 (v odd).
 func genTail(r *vf.Rand, kind string, v int) (Desc, bool) {
 	base := strings.TrimPrefix(kind, "bufout:")
-	noEofRows := base == "const" || base == "frame" || base == "taskbuf" || base == "decoding"
+	noEofRows := base == "const" || base == "frame" || base == "taskbuf" || base == "decoding" || base == "head-decoding"
 	for try := 0; try < 200; try++ {
 		d := genCase(r.Split(), kind, try%2)
 		ok := len(d.Ins) > 0
@@ -1363,7 +1408,7 @@ func genTail(r *vf.Rand, kind string, v int) (Desc, bool) {
 			if v%2 == 1 {
 				dm = int(fan) - 1
 			}
-		case "head": // the limit falls on, or just before, the last row
+		case "head", "head-decoding": // the limit falls on, or just before, the last row
 			d.P = []int64{int64(total - v/2)}
 		case "scan", "scanbad":
 			return d, base == "scan"
@@ -1471,7 +1516,7 @@ func directed(r *vf.Rand, scale int) []Desc {
 			ds = append(ds, genBigMerge(r.Split(), k, v%4))
 		}
 	}
-	for _, k := range []string{"scanner", "scan", "fold", "bufout:flatmap", "bufout:fold", "flatmap", "decoding"} {
+	for _, k := range []string{"scanner", "scan", "fold", "bufout:flatmap", "bufout:fold", "flatmap", "decoding", "head-decoding"} {
 		for v := 0; v < 2*scale; v++ {
 			ds = append(ds, genCase(r.Split(), k, 2))
 		}
@@ -1502,7 +1547,7 @@ func main() {
 	opts := vf.ParseFlags()
 	out := &vf.Output{ID: "C17", Import: "BS.C17.Corr",
 		Rule: "scripted upstreams (chunk sizes, empty reads, rows together with EOF, failures) x PRNG demand sequences over " +
-			"{1,2,3,7,127,128,129,random} on sentinel-filled destinations, 24 reader kinds, 6 column schemas; plus directed families " +
+			"{1,2,3,7,127,128,129,random} on sentinel-filled destinations, 25 reader kinds, 6 column schemas, about half of the destinations windows backing.Slice(pre, pre+d) of a larger sentinel-filled frame (Len < Cap and/or offset > 0) whose every row is recorded after the call; plus directed families " +
 			"(last rows together with EOF read with demands 1/2 while a stash or buffer is non-empty; merge-based readers over inputs of >128 rows with overlapping keys; 128-row vectors crossed); " +
 			"non-trivial = at least two Read calls and at least one row delivered; distinct by case text",
 		Extra: map[string]interface{}{}}
@@ -1566,6 +1611,14 @@ func main() {
 			out.Extra["exhaustive"] = true
 			out.Extra["exhaustive_cases"] = n
 			out.Notes = append(out.Notes, "exhaustive: all 120 demand sequences of length <= 4 over {1,2,3} for two scripts of <= 6 rows per reader kind")
+		}
+	}
+	if opts.Replay == "" {
+		// destination windows: an own PRNG stream, so that the scripts and
+		// demands of a seed do not depend on it
+		wr := vf.NewRand(opts.Seed + 0xC17D)
+		for i := range descs {
+			descs[i].W = wr.Uint64() | 1
 		}
 	}
 	for _, d := range descs {
